@@ -12,7 +12,7 @@ From Coq Require Import ZArith.
 Import ListNotations.
 Open Scope N_scope.
 
-Record c12_in := mkIn { i_db : db; i_start : list N; i_steps : list step; i_raw : text }.
+Record c12_in := mkIn { i_db : db; i_start : list N; i_steps : list step; i_raw : text; i_cfg : cfg }.
 (* how one side ended: the observable of the database afterwards, after a completed run (ROk) or after an error (RErr) *)
 Inductive robs := ROk (o:obs) | RErr (o:obs).
 Record c12_out := mkOut { o_on : robs; o_off : robs; o_posted : text }.
@@ -25,6 +25,11 @@ Record c12_out := mkOut { o_on : robs; o_off : robs; o_posted : text }.
    online run rolls the open transaction back (with the sqlite3 driver: to the first DML statement of the failing
    step; DDL issued before it in that step stays, earlier steps are committed).  Both partial states are modelled
    (Aborted / rolled_back) and compared exactly with the real databases by corr_C12.
+   CONFIGURATION: i_cfg = (transactional_ddl, transaction_per_migration) of the migration context, for both runs.  With
+   transactional DDL the offline script carries its own BEGIN / COMMIT (around the whole run, or around every step and
+   around the final DROP of the version table); the script is replayed on an autocommit connection, so these frame the
+   transactions, a nested BEGIN or an unmatched COMMIT is an error, and an error inside a block rolls the block back.
+   Online the same flags decide where the connection commits (once at the end, or after every step).
    START: `start` is [] (base) or a single revision.  A multi-head start is not expressible: `upgrade a+b:heads` and
    `a,b:heads` are rejected (CommandError "Can't locate revision identified by 'a+b'"), and `heads:...` with two heads
    raises CommandError (MultipleHeads) in get_current_heads — probed on every run (evidence key
@@ -40,8 +45,8 @@ Definition C12_holds (i:c12_in) (o:c12_out) : Prop :=
 Definition TERM : text := [59].                  (* SQLiteImpl.command_terminator = ";" *)
 Definition robs_of (x:outcome) : robs := match x with Done d => ROk (observable d) | Aborted d => RErr (observable d) end.
 Definition model_C12 (i:c12_in) : c12_out :=
-  mkOut (robs_of (online_outcome lit_c parse_c untext_c (i_db i) (i_steps i)))
-        (robs_of (offline_outcome lit_c parse_c untext_c (i_db i) (i_start i) (i_steps i)))
+  mkOut (robs_of (online_outcome lit_c parse_c untext_c (i_cfg i) (i_db i) (i_steps i)))
+        (robs_of (offline_outcome lit_c parse_c untext_c (i_cfg i) (i_db i) (i_start i) (i_steps i)))
         (exec_post TERM (i_raw i)).
 
 (* ---- decidable equality *)
